@@ -24,6 +24,8 @@ import sys
 from pathlib import Path
 
 UNSET = "<unset>"  # JSON marker for "no value passed" (mandatory field left attrs.NOTHING / default used)
+LAZY = "<lazy>"  # JSON marker for "connected to an upstream node's output" (workflow construction time)
+EXT_KINDS = ("ro", "outopt")  # outside C31's quantifier: shell.arg(readonly=True) / shell.outarg(File | None, path_template)
 
 KINDS = ("optstr", "bool", "optbool", "str", "strd")
 PY_TYPES = {"optstr": "str | None", "bool": "bool", "optbool": "bool | None", "str": "str", "strd": "str"}
@@ -53,7 +55,31 @@ def domain(kind: str, empty: bool) -> list:
         "optbool": [None, False, True],
         "str": [UNSET, "x", s2],
         "strd": [UNSET, "x", s2],
+        "ro": [UNSET, "x"],
+        "outopt": [None, True, False],
     }[kind]
+
+
+def gen_ext_def(rng, name: str) -> dict:
+    """Shell definition of the C31 generator with one or two fields turned into a `readonly` input / an optional
+    `outarg` with a path template (model flags `exempt`, `optFileset`).  Outside the property's quantifier."""
+    d = gen_rules_def(rng, "shell", name, empty_p=0.15)
+    for f in rng.sample(d["fields"], min(len(d["fields"]), rng.choice([1, 1, 2]))):
+        f["kind"] = rng.choice(EXT_KINDS)
+    d["stream"] = "ext"
+    return d
+
+
+def lazy_assignments(rng, d: dict, limit: int = 120) -> list[dict]:
+    """Assignments with at least one lazy value: one or two fields may (in addition to their domain) be connected to an
+    upstream output."""
+    names = [f["name"] for f in d["fields"]]
+    lz = set(rng.sample(names, min(len(names), rng.choice([1, 2, 2]))))
+    doms = [domain(f["kind"], d.get("empty", False)) + ([LAZY] if f["name"] in lz else []) for f in d["fields"]]
+    out = [dict(zip(names, c)) for c in itertools.product(*doms) if LAZY in c]
+    if len(out) > limit:
+        out = rng.sample(out, limit)
+    return out
 
 
 def gen_rules_def(rng, flavor: str, name: str, *, max_fields: int = 5, empty_p: float = 0.25, optbool_p: float = 0.15) -> dict:
@@ -233,19 +259,27 @@ def build(d: dict, moddir: Path):
         return python.define(fn, inputs=inputs or None, outputs=["out"], xor=[list(g) for g in d["xor"]])
     import typing as ty
 
-    types = {"optstr": ty.Optional[str], "bool": bool, "optbool": ty.Optional[bool], "str": str, "strd": str}
-    inputs = {}
+    from fileformats.generic import File
+
+    types = {"optstr": ty.Optional[str], "bool": bool, "optbool": ty.Optional[bool], "str": str, "strd": str, "ro": str,
+             "outopt": ty.Optional[File]}  # fmt: skip
+    inputs, outputs = {}, {}
     for i, f in enumerate(d["fields"]):
         kw = {"type": types[f["kind"]], "argstr": f.get("argstr", f"--{f['name']}")}
-        if f["kind"] != "str":
-            kw["default"] = DEFAULTS[f["kind"]]
+        if f["kind"] not in ("str", "ro"):
+            kw["default"] = DEFAULTS.get(f["kind"])
         if f.get("requires"):
             kw["requires"] = _requires_arg(f)
         for k in ("help", "position", "sep", "allowed_values"):
             if f.get(k) is not None:
                 kw[k] = f[k]
-        inputs[f["name"]] = shell.arg(**kw)
-    return shell.define("echo", inputs=inputs, name=d["name"], xor=[list(g) for g in d["xor"]])
+        if f["kind"] == "outopt":
+            outputs[f["name"]] = shell.outarg(path_template=f"{f['name']}_out.txt", **kw)
+        elif f["kind"] == "ro":
+            inputs[f["name"]] = shell.arg(readonly=True, **kw)
+        else:
+            inputs[f["name"]] = shell.arg(**kw)
+    return shell.define("echo", inputs=inputs, outputs=outputs or None, name=d["name"], xor=[list(g) for g in d["xor"]])
 
 
 def instantiate(cls, a: dict):
@@ -255,31 +289,52 @@ def instantiate(cls, a: dict):
 # --------------------------------------------------------------------------------------------------
 # observing the implementation
 
-_NAME_EQ = re.compile(r"(\w+)=")
+def _names_eq(s: str) -> list[str]:
+    """field names of `n1=<repr>, n2=<repr>, …` (reprs may contain quotes, commas, parentheses and `=`)"""
+    out, depth, quote, tok, i = [], 0, None, "", 0
+    at_start = True
+    while i < len(s):
+        c = s[i]
+        if quote:
+            if c == "\\":
+                i += 1
+            elif c == quote:
+                quote = None
+        elif c in "'\"":
+            quote = c
+        elif c in "([{":
+            depth += 1
+        elif c in ")]}":
+            depth -= 1
+        elif depth == 0 and c == "," :
+            at_start, tok = True, ""
+        elif depth == 0 and at_start:
+            if c == "=":
+                out.append(tok.strip())
+                at_start = False
+            else:
+                tok += c
+        i += 1
+    return out
 
 
 def canon_violations(msgs: list[str]) -> list:
-    """Map `_rule_violations()` messages to structured tags (wording-tolerant: keywords + quoted names)."""
+    """Map `_rule_violations()` messages to structured tags (wording-tolerant: keywords + field names)."""
     out = []
     for m in msgs:
         if m.startswith("Mandatory field"):
             out.append(["mandatory", re.search(r"'(\w+)'", m).group(1)])
         elif m.startswith("Mutually exclusive fields"):
             inner = m[m.index("(") + 1 : m.rindex(") are set")]
-            out.append(["xor_many", sorted(_NAME_EQ.findall(_strip_reprs(inner)))])
+            out.append(["xor_many", sorted(_names_eq(inner))])
         elif m.startswith("At least one of the mutually exclusive"):
             inner = m.split("should be set:", 1)[1]
-            out.append(["xor_none", sorted(_NAME_EQ.findall(_strip_reprs(inner)))])
+            out.append(["xor_none", sorted(_names_eq(inner))])
         elif " requires" in m and m.startswith("'"):
             out.append(["requires", re.match(r"'(\w+)'", m).group(1)])
         else:
             out.append(["other", m[:60]])
     return sorted(out, key=lambda x: (x[0], str(x[1])))
-
-
-def _strip_reprs(s: str) -> str:
-    """Remove quoted string reprs so that `name=` inside a value cannot be mistaken for a field."""
-    return re.sub(r"'[^']*'", "''", s)
 
 
 def probe_submission(cls, a: dict, root: Path, how: str, marker: Path) -> dict:
@@ -324,6 +379,92 @@ def probe_submission(cls, a: dict, root: Path, how: str, marker: Path) -> dict:
         res["ran"] = out is not None
         res["out"] = getattr(out, "stdout", None) if out is not None else None
     return res
+
+
+# --------------------------------------------------------------------------------------------------
+# lazy values: the task as a workflow node sees it at construction time (outside C31's quantifier)
+
+_LAZY_SRC = """import os
+import typing as ty
+from pydra.compose import python, workflow
+
+CLS = None
+ASGS = []
+REC = []
+RUN = None
+
+
+@python.define(outputs=["out"])
+def Up_{name}(x: ty.Any) -> ty.Any:
+    m = os.environ.get("VERIF_RULES_MARK")
+    if m:
+        with open(m, "a") as fh:
+            fh.write("upstream {name}\\n")
+    return x
+
+
+def _kw(a, up):
+    return {{k: (up.out if v == "<lazy>" else v) for k, v in a.items() if v != "<unset>"}}
+
+
+@workflow.define(outputs=["o"])
+def W_{name}(x: ty.Any) -> ty.Any:
+    up = workflow.add(Up_{name}(x=x))
+    for a in ASGS:
+        REC.append(list(CLS(**_kw(a, up))._rule_violations()))
+    if RUN is not None:
+        workflow.add(CLS(**_kw(RUN, up)), name="under_test")
+    return up.out
+"""
+
+
+def lazy_module(d: dict, cls, moddir: Path):
+    moddir.mkdir(parents=True, exist_ok=True)
+    modname = f"verif_rules_lazy_{next(_modcount)}_{d['name']}"
+    path = moddir / f"{modname}.py"
+    path.write_text(_LAZY_SRC.format(name=d["name"]))
+    spec = importlib.util.spec_from_file_location(modname, path)
+    mod = importlib.util.module_from_spec(spec)
+    sys.modules[modname] = mod
+    spec.loader.exec_module(mod)
+    mod.CLS = cls
+    return mod
+
+
+def lazy_violations(mod, d: dict, asgs: list[dict]) -> list[list]:
+    """`_rule_violations()` of the task built with lazy inputs inside a workflow constructor, per assignment."""
+    from pydra.engine.workflow import Workflow
+
+    mod.ASGS, mod.RUN = list(asgs), None
+    del mod.REC[:]
+    Workflow.clear_cache()
+    Workflow.construct(getattr(mod, f"W_{d['name']}")(x="q"))
+    if len(mod.REC) != len(asgs):
+        raise RuntimeError(f"workflow constructor recorded {len(mod.REC)} of {len(asgs)} assignments")
+    return [canon_violations(v) for v in mod.REC]
+
+
+def lazy_submission(mod, d: dict, a: dict, root: Path, marker: Path) -> dict:
+    """Run a workflow with the task (lazy inputs) as a node: exception class, whether any node body ran."""
+    import os
+
+    from pydra.engine.workflow import Workflow
+
+    mod.ASGS, mod.RUN = [], dict(a)
+    del mod.REC[:]
+    Workflow.clear_cache()
+    if marker.exists():
+        marker.unlink()
+    os.environ["VERIF_RULES_MARK"] = str(marker)
+    exc = None
+    try:
+        getattr(mod, f"W_{d['name']}")(x=f"q{next(_modcount)}")(cache_root=root, worker="debug")
+    except Exception as e:  # noqa: BLE001
+        exc = type(e).__name__
+    finally:
+        os.environ.pop("VERIF_RULES_MARK", None)
+        mod.RUN = None
+    return {"exc": exc, "ran": marker.exists()}
 
 
 # --------------------------------------------------------------------------------------------------
